@@ -54,15 +54,13 @@ fn service_path(
     use erbium_net::addr::Inet4Addr;
     let dst_ip = if request.pkt.get_broadcast_flag() { std::net::Ipv4Addr::BROADCAST } else { reply.yiaddr };
     let replybuf = reply.serialise();
-    Some(
-        erbium_net::packet::Fragment::new_udp4(
-            Inet4Addr::from(std::net::SocketAddrV4::new(request.serverip, 67)),
-            &[2, 0, 0, 0, 0, 0xfe],
-            Inet4Addr::from(std::net::SocketAddrV4::new(dst_ip, 68)),
-            &chaddr,
-            erbium_net::packet::Tail::Payload(&replybuf),
-        )
-        .flatten(),
+    // the frame as the receive loop builds it (None: too large for a datagram, not sent)
+    dhcp::verif::reply_frame(
+        Inet4Addr::from(std::net::SocketAddrV4::new(request.serverip, 67)),
+        &[2, 0, 0, 0, 0, 0xfe],
+        Inet4Addr::from(std::net::SocketAddrV4::new(dst_ip, 68)),
+        &chaddr,
+        &replybuf,
     )
 }
 
